@@ -535,17 +535,8 @@ class GlueUnSerializer(object):
                 self._working.remove(obj_id)
 
             if isgeneratorfunction(func):
-                try:
-                    for _ in gen:  # ... and finish constructing it
-                        pass
-                except Exception:
-                    # If the object could not be completed (e.g. because a
-                    # deferred callback tried to load it too early and hit a
-                    # circular reference), forget the half-constructed object
-                    # so that it is built again, completely, later on.
-                    if isinstance(obj_id, str):
-                        self._objs.pop(obj_id, None)
-                    raise
+                for _ in gen:  # ... and finish constructing it
+                    pass
 
         finally:
 
@@ -1009,12 +1000,28 @@ def _save_data_3(data, context):
     return result
 
 
+def _load_key_joins(result, rec, context, load_cids):
+    # The other dataset of a key join may be under construction further up the
+    # call stack (e.g. when a deferred callback asks for this dataset while the
+    # other one is being loaded), in which case asking for it raises a circular
+    # reference error. The joins are then completed by a deferred callback, so
+    # that the rest of this dataset is loaded in any case.
+
+    def load(context):
+        result._key_joins = dict((context.object(k), (load_cids(v0), load_cids(v1)))
+                                 for k, v0, v1 in rec['_key_joins'])
+
+    try:
+        load(context)
+    except GlueSerializeError:
+        context._callbacks.append(load)
+
+
 @loader(Data, version=3)
 def _load_data_3(rec, context):
     result = _load_data_2(rec, context)
     yield result
-    result._key_joins = dict((context.object(k), (context.object(v0), context.object(v1)))
-                             for k, v0, v1 in rec['_key_joins'])
+    _load_key_joins(result, rec, context, context.object)
 
 
 @saver(Data, version=4)
@@ -1038,8 +1045,7 @@ def _load_data_4(rec, context):
     def load_cid_tuple(cids):
         return tuple(context.object(cid) for cid in cids)
 
-    result._key_joins = dict((context.object(k), (load_cid_tuple(v0), load_cid_tuple(v1)))
-                             for k, v0, v1 in rec['_key_joins'])
+    _load_key_joins(result, rec, context, load_cid_tuple)
     if 'uuid' in rec and rec['uuid'] is not None:
         result.uuid = rec['uuid']
     else:
@@ -1076,8 +1082,7 @@ def _load_data_5(rec, context):
     def load_cid_tuple(cids):
         return tuple(context.object(cid) for cid in cids)
 
-    result._key_joins = dict((context.object(k), (load_cid_tuple(v0), load_cid_tuple(v1)))
-                             for k, v0, v1 in rec['_key_joins'])
+    _load_key_joins(result, rec, context, load_cid_tuple)
     if 'uuid' in rec and rec['uuid'] is not None:
         result.uuid = rec['uuid']
     else:
@@ -1449,10 +1454,7 @@ def _load_regiondata(rec, context):
     def load_cid_tuple(cids):
         return tuple(context.object(cid) for cid in cids)
 
-    result._key_joins = dict(
-        (context.object(k), (load_cid_tuple(v0), load_cid_tuple(v1)))
-        for k, v0, v1 in rec["_key_joins"]
-    )
+    _load_key_joins(result, rec, context, load_cid_tuple)
     if "uuid" in rec and rec["uuid"] is not None:
         result.uuid = rec["uuid"]
     else:
